@@ -1230,11 +1230,12 @@ def compile_with_expression(compiler, expr, root, args, body):
             ctx = compiler.compile(ctx)
             if i == 0:
                 ret += ctx
-            elif ctx.stmts:
-                # We need to include some statements as part of this
-                # context manager, but this `with` already has at
-                # least one prior context manager. So, put our
-                # statements in the body and then start a new `with`.
+            else:
+                # Start a new `with` inside the body for every further
+                # context manager. This gives a place for the
+                # statements the manager may need, and it keeps the
+                # result `None` when an earlier manager suppresses an
+                # exception raised by a later manager's `__exit__`.
                 cbody = ctx + compile_with_expression(
                     compiler,
                     expr,
